@@ -454,8 +454,22 @@ pub fn c13(args: &Args) -> i32 {
         let art_path = format!("{}.artefacts", args.out);
         let _ = std::fs::remove_file(&art_path);
         let chunks: Vec<(u64, u64)> = (0..shared_n).step_by(100).map(|a| (a, (a + 100).min(shared_n))).collect();
+        // Every worker compiles the same shared programs but in its own order (rotated by a
+        // shard-specific amount, reversed on odd shards), so that what was compiled earlier in the
+        // same process differs between workers: an artefact that depends on compilation history
+        // (a cache keyed too coarsely, a static counter) then differs in the cross-process join.
+        let perm: Vec<u64> = {
+            let n = shared_n.max(1);
+            let rot = (args.shard as u64 * 37 + args.seed % 11) % n;
+            let mut v: Vec<u64> = (0..shared_n).map(|k| (k + rot) % n).collect();
+            if args.shard % 2 == 1 {
+                v.reverse();
+            }
+            v
+        };
         for (a, b) in chunks {
-            let f = crate::props::batched(a, b, 100, 0, |i| {
+            let f = crate::props::batched(a, b, 100, 0, |k| {
+                let i = perm[k as usize];
                 let mut table = BTreeMap::new();
                 let r = c13_case(args.seed, i, &corpus, args.thorough, &mut table);
                 use std::io::Write;
@@ -466,7 +480,7 @@ pub fn c13(args: &Args) -> i32 {
                 }
                 r
             });
-            found.extend(f);
+            found.extend(f.into_iter().map(|(k, why)| (perm[k as usize], why)));
         }
         if let Ok(s) = std::fs::read_to_string(&art_path) {
             for l in s.lines() {
